@@ -238,6 +238,15 @@ func (nak *NesterAccountKeeper) SetAccount(account EthAccount) error {
 func (nak *NesterAccountKeeper) RemoveAccount(account EthAccount) {
 	prefixKey := append(nak.prefix, account.Address.Bytes()...)
 	nak.state.Delete(prefixKey)
+	// the balance is kept in the balance store, not in the account record:
+	// a removed (self-destructed) account must not leave its old balance behind
+	coin, err := nak.getOrCreateCurrencyBalance(account.Address, nil)
+	if err == nil && coin.Amount.BigInt().Sign() != 0 {
+		coin.Amount = NewAmountFromBigInt(big.NewInt(0))
+		if err := nak.balances.SetBalance(account.Address, coin); err != nil {
+			nak.logger.Error("failed to clear balance of removed account", account.Address, err)
+		}
+	}
 }
 
 func (nak *NesterAccountKeeper) GetNonce(addr keys.Address) uint64 {
